@@ -1,6 +1,6 @@
 """C11 -- termination under fair schedules (clauses): absence of the named blocking hazards.
 D1 at most one bin lock / D2 root lock innermost and paired / D3 park protocol / D4 initialisation ticket released / D5 = L4."""
-from .affine import evaluator, Aff, TOP
+from .affine import evaluator, Aff, TOP, const_val
 from .analysis import flow, regions, cond_of, dominated_by_edge, reach, after, entry, Point, dominates, return_points, lock_calls, held_regions_at
 from .anchors import callee_str, is_std_atomic, is_reclaim_atomic, receiver_field
 from .callgraph import callgraph
@@ -135,7 +135,7 @@ def rule_d3(ctx, facts):
                     for pt3, kind3, data3 in b.defs.get(al, []):
                         if kind3 == "assign" and data3["rv"].get("bin") == "BitAnd":
                             ops3 = [data3["rv"]["a"], data3["rv"]["b"]]
-                            if any(o.get("int") == WAITER for o in ops3) and any(
+                            if any(const_val(b, o) == WAITER for o in ops3) and any(
                                     x is not None and x.point in {l.point for l in loads} for o in ops3 if op_root(o) is not None for x in fl.call_roots(op_root(o))):
                                 bit_edges.append((blk, cd["false"] if cd["op"] == "Eq" else cd["true"]))
             setters = [c for c in cass if sets_bit(b, c, WAITER)]
@@ -203,10 +203,12 @@ def rule_d3(ctx, facts):
             if is_std_atomic(c) in ("fetch_add", "fetch_sub") and ("node::TreeBin", "lock_state") in receiver_field(rb, c, 0) and not rb.is_cleanup(c.b):
                 for blk in range(len(rb.blocks)):
                     cd = cond_of(rb, blk)
-                    if cd and cd["kind"] == "cmp" and cd["op"] == "Eq":
+                    if cd and cd["kind"] == "cmp" and cd["op"] in ("Eq", "Ne"):
                         a, bb2 = ev.operand(cd["a"]), ev.operand(cd["b"])
+                        if a is not TOP and bb2 is not TOP and a.is_const() and not bb2.is_const():
+                            a, bb2 = bb2, a
                         if a is not TOP and bb2 is not TOP and a == Aff.sym(("call", c.b)) and bb2.is_const() and bb2.c == (READER | WAITER):
-                            r = reach(rb, [Point(cd["true"], 0)])
+                            r = reach(rb, [Point(cd["true"] if cd["op"] == "Eq" else cd["false"], 0)])
                             if any(callee_str(x).endswith("Thread::unpark") and x.point in r for x in rb.calls):
                                 ok = True
                                 where = (rb, c)
@@ -300,7 +302,8 @@ def rule_d10(ctx, facts):
             if "Mutex" in p or "lock" in p.rsplit("::", 1)[-1]:
                 continue      # lock acquisitions: D1 / D2
             n += 1
-            owner = strip_generics(b.id.split("::{closure")[0])
+            pb = facts.by_id.get(b.id.split("::{closure")[0], b)
+            owner = pb.sid        # (re-identified functions carry their pinned name)
             ok = owner in MAY_WAIT
             ctx.inst("D10", b, "wait primitive %s" % p.rsplit("::", 1)[-1], c.span, ok,
                      MAY_WAIT[owner] if ok else
@@ -316,14 +319,23 @@ def ok_edge_generic(body, cas):
 
 def sets_bit(body, cas, bit):
     """new value of the CAS is `expected | bit`"""
+    from .affine import const_val
     l = op_local(cas.args[2])
     if l is None:
         return False
+    ev0 = evaluator(body)
+    exp = ev0.operand(cas.args[1])
     for pt, kind, data in body.defs.get(l, []):
-        if kind == "assign" and data["rv"].get("bin") == "BitOr":
-            for o in (data["rv"]["a"], data["rv"]["b"]):
-                if o.get("int") == bit:
-                    return True
+        if kind == "assign" and data["rv"].get("bin", "").replace("WithOverflow", "") in ("BitOr", "Add"):
+            ops = (data["rv"]["a"], data["rv"]["b"])
+            # expected | bit, or expected + bit (the same word when the bit is clear in it)
+            if any(const_val(body, o) == bit for o in ops) and (
+                    data["rv"]["bin"] == "BitOr" or any(ev0.operand(o) is not TOP and exp is not TOP and ev0.operand(o) == exp for o in ops)):
+                return True
+    # through the checked-add tuple: new = (expected + bit).0
+    f = ev0.operand(cas.args[2])
+    if f is not TOP and exp is not TOP and (f - exp).is_const() and (f - exp).c == bit:
+        return True
     return False
 
 
@@ -470,24 +482,35 @@ def rule_d6(ctx, facts, rule="D6"):
             for blk in range(len(b.blocks)):
                 cd = cond_of(b, blk)
                 if cd and cd["kind"] == "cmp" and cd["op"] in ("Ne", "Eq"):
-                    bb = ev.operand(cd["b"])
-                    al = op_local(cd["a"])
-                    if bb is TOP or not bb.is_const() or bb.c != 0 or al is None:
-                        continue
-                    for pt, kind, data in b.defs.get(al, []):
-                        if kind == "assign" and data["rv"].get("bin") == "BitAnd":
-                            fs = [ev.operand(data["rv"]["a"]), ev.operand(data["rv"]["b"])]
-                            if any(f is not TOP and f == exp for f in fs) and any(f is not TOP and f.is_const() and int(f.c) == (WRITER | WAITER) for f in fs):
-                                free_edge = cd["false"] if cd["op"] == "Ne" else cd["true"]
-                                if dominated_by_edge(b, x.point, [(blk, free_edge)]):
-                                    masked = True
+                    for aa, bo in ((cd["a"], cd["b"]), (cd["b"], cd["a"])):
+                        bb = ev.operand(bo)
+                        al = op_local(aa)
+                        if bb is TOP or not bb.is_const() or bb.c != 0 or al is None:
+                            continue
+                        for pt, kind, data in b.defs.get(al, []):
+                            if kind == "assign" and data["rv"].get("bin") == "BitAnd":
+                                fs = [ev.operand(data["rv"]["a"]), ev.operand(data["rv"]["b"])]
+                                if any(f is not TOP and f == exp for f in fs) and any(f is not TOP and f.is_const() and int(f.c) == (WRITER | WAITER) for f in fs):
+                                    free_edge = cd["false"] if cd["op"] == "Ne" else cd["true"]
+                                    if dominated_by_edge(b, x.point, [(blk, free_edge)]):
+                                        masked = True
+            # the tree is entered at a root loaded under the read lock: a root read before the CAS may have been rotated away or removed
+            stale_root = None
+            rl = op_root(c.args[0]) if c.args else None
+            if rl is not None:
+                for rc in flow(b).call_roots(rl):
+                    if rc is not None and is_reclaim_atomic(rc) == "load" and ("node::TreeBin", "root") in receiver_field(b, rc, 0) \
+                            and not dominated_by_edge(b, rc.point, [oke]):
+                        stale_root = rc
             rel = {y.point for y in b.calls if is_std_atomic(y) in ("fetch_add", "fetch_sub") and LS in receiver_field(b, y, 0)}
             r = reach(b, [Point(oke[1], 0)], avoid=rel)
             leaks = [rp for rp in return_points(b) if rp in r]
-            ok = masked and not leaks
+            ok = masked and not leaks and stale_root is None
             ctx.inst(rule, b, "tree descent under the read lock", c.span, ok,
-                     "won CAS s -> s + READER with s & (WRITER|WAITER) == 0; the count is given back on every path" if ok else
-                     ("the read lock is taken although a writer holds or awaits the lock (no test of s & (WRITER|WAITER) == 0 guards the CAS)" if not masked else
+                     "won CAS s -> s + READER with s & (WRITER|WAITER) == 0; root loaded under the lock; the count is given back on every path" if ok else
+                     ("the tree is entered at a root that was loaded at %s, before the read lock was won: a writer may have rotated or removed that "
+                      "node in between, and the search misses keys that are present" % stale_root.span if stale_root is not None and masked and not leaks else
+                      "the read lock is taken although a writer holds or awaits the lock (no test of s & (WRITER|WAITER) == 0 guards the CAS)" if not masked else
                       "a path returns without decrementing the reader count: the writer waits forever"))
     if n < 3:
         ctx.fail_closed("%s: expected the three tree-descent call sites (TreeBin::find, compute_if_present, replace_node), found %d" % (rule, n))
